@@ -137,7 +137,7 @@ Definition enc_recvs (l : list (text * text)) : wv :=
 
 (* case (1 setup loop functions globals) ->
    (0 lib_globals lib_init recv_setup recv_loop recv_functions spec_setup spec_loop
-      lcds_at_top cmds_follow_decl headers_of_erased lcd_defs)
+      lcds_at_top cmds_follow_decl headers_of_erased lcd_defs lib_sketch)
    lcd_defs = ((i2c name index object_identifier) ...) *)
 Definition run_objs (s l : list wv) (fs : list wv) (g : list wv) : wv :=
   match dec_items s, dec_items l, dec_ibodies fs, dec_items g with
@@ -154,7 +154,8 @@ Definition run_objs (s l : list wv) (fs : list wv) (g : list wv) : wv :=
             wbool (cmds_follow_decl [] s');
             WL (map enc_header (headers (erase_prog p)));
             WL (map (fun dk => WL [wbool (l_i2c (fst dk)); wtext (l_name (fst dk)); WI (snd dk);
-                                   wtext (lcd_ident (snd dk) (l_name (fst dk)))]) (lcd_defs p)) ]
+                                   wtext (lcd_ident (snd dk) (l_name (fst dk)))]) (lcd_defs p));
+            WL (map wtext (lib_sketch p)) ]
   | _, _, _, _ => wbad
   end.
 
